@@ -5,6 +5,7 @@ import (
 	"errors"
 	"fmt"
 	"math/rand"
+	"regexp"
 	"sort"
 	"strings"
 
@@ -18,6 +19,8 @@ import (
 )
 
 // Module merge: G3 file-set generator, R3 merge oracle, and the monitors of C07, C12 and C16 (merge part).
+
+var declRe = regexp.MustCompile(`^[ \t]*(extend[ \t]+type|type|condition|define)[ \t]+`)
 
 func init() {
 	register("C07", runMerge, replayMerge, 200)
@@ -329,6 +332,46 @@ func genFileSet(r *rand.Rand, o mergeGenOpt) []*mfile {
 				}
 				if !dup {
 					blk.Rels = append(blk.Rels, gen.Relation{Name: rn2, Expr: pickRewrite(r, mergeRelPool)})
+				}
+			}
+			if len(files) >= 2 && r.Intn(3) == 0 {
+				// the SAME relation name clashes in a second file too (on another type that has it, or on the same type),
+				// standing on a different line there: state kept per relation name across files shows here
+				f2 := files[r.Intn(len(files))]
+				if f2 != f && f2.Broken == "" {
+					tn2 := tn
+					for _, cand := range cands {
+						if cand != tn && relsOf[cand][rn] && r.Intn(2) == 0 {
+							tn2 = cand
+						}
+					}
+					d2 := f2.Doc
+					var blk2 *gen.TypeDef
+					for i := range d2.Types {
+						if d2.Types[i].Extend && d2.Types[i].Name == tn2 {
+							blk2 = &d2.Types[i]
+						}
+					}
+					if blk2 == nil {
+						d2.Types = append(d2.Types, gen.TypeDef{Name: tn2, Extend: true})
+						blk2 = &d2.Types[len(d2.Types)-1]
+					}
+					has2 := false
+					for _, rel := range blk2.Rels {
+						if rel.Name == rn {
+							has2 = true
+						}
+					}
+					if !has2 {
+						for q := r.Intn(3); q > 0; q-- {
+							pad := fmt.Sprintf("pad%d_%s", q, rn)
+							if !relsOf[tn2][pad] {
+								relsOf[tn2][pad] = true
+								blk2.Rels = append(blk2.Rels, gen.Relation{Name: pad, Expr: pickRewrite(r, mergeRelPool)})
+							}
+						}
+						blk2.Rels = append(blk2.Rels, gen.Relation{Name: rn, Expr: pickRewrite(r, mergeRelPool)})
+					}
 				}
 			}
 		case 6: // non-module file
@@ -777,6 +820,16 @@ func checkMerge(run *core.Run, files []core.File, exp mergeExpect, r *rand.Rand,
 				run.Count("merge_column_ranges_checked", 1)
 				if got := fl[hit.Line][hit.Col:hit.ColEnd]; got != cf.Name {
 					viol("C16", "merge-error-columns-not-on-the-name:"+cf.Kind, fmt.Sprintf("columns covering %q", cf.Name), fmt.Sprintf("line %d columns %d..%d cover %q in %q", hit.Line, hit.Col, hit.ColEnd, got, fl[hit.Line]))
+				} else if okLine {
+					// ... and it is the DECLARED name they cover, not a later use of the same word on that line (a relation
+					// referring to itself, a parameter named like its condition). Demanded only where the first
+					// occurrence of the word on the line is the declaration (in `type e` the word also occurs in the keyword).
+					if loc := declRe.FindStringIndex(fl[hit.Line]); loc != nil && strings.HasPrefix(fl[hit.Line][loc[1]:], cf.Name) && strings.Index(fl[hit.Line], cf.Name) == loc[1] {
+						run.Count("merge_columns_checked_against_the_declared_name", 1)
+						if hit.Col != loc[1] {
+							viol("C16", "merge-error-columns-on-a-later-use-of-the-name:"+cf.Kind, fmt.Sprintf("column %d, where %q is declared", loc[1], cf.Name), fmt.Sprintf("line %d columns %d..%d in %q", hit.Line, hit.Col, hit.ColEnd, fl[hit.Line]))
+						}
+					}
 				}
 			}
 		}
